@@ -69,6 +69,21 @@ type tcase struct {
 	// "first1" the first read returns one byte; "second-1" the second read returns one byte less than asked;
 	// "eof-with-data" the last bytes arrive together with io.EOF (all legal for an io.Reader)
 	Reads string
+	// CopyRename: the device module's optional Rename callback is a move that copies by path and then removes the
+	// source (the cross-filesystem case the option exists for) instead of os.Rename
+	CopyRename bool
+}
+
+// copyRename moves a file the way it has to be moved across file systems.
+func copyRename(oldpath, newpath string) error {
+	b, err := os.ReadFile(oldpath)
+	if err != nil {
+		return err
+	}
+	if err := os.WriteFile(newpath, b, 0o644); err != nil {
+		return err
+	}
+	return os.Remove(oldpath)
 }
 
 // shortReader answers Read calls according to a pattern; it never invents or drops bytes.
@@ -514,8 +529,11 @@ func (wd *world) run(c tcase) outcome {
 		} else {
 			owner = &fsim.DownloadContents[*bytes.Reader]{Name: fileName, Contents: bytes.NewReader(data), MustDownload: c.Must, ChunkSize: c.Chunk}
 		}
-		cfg.DeviceModules = map[string]serviceinfo.DeviceModule{modName: &fsim.Download{
-			CreateTemp: createTemp, NameToPath: func(n string) string { return filepath.Join(dest, filepath.Base(n)) }}}
+		dl := &fsim.Download{CreateTemp: createTemp, NameToPath: func(n string) string { return filepath.Join(dest, filepath.Base(n)) }}
+		if c.CopyRename {
+			dl.Rename = copyRename
+		}
+		cfg.DeviceModules = map[string]serviceinfo.DeviceModule{modName: dl}
 	case "upload":
 		modName = "fdo.upload"
 		owner = &fsim.UploadRequest{Dir: dest, Name: fileName, CreateTemp: createTemp}
@@ -533,9 +551,13 @@ func (wd *world) run(c tcase) outcome {
 			cmd.Checksum = nil
 		}
 		owner = cmd
-		cfg.DeviceModules = map[string]serviceinfo.DeviceModule{modName: &fsim.Wget{
+		wg := &fsim.Wget{
 			CreateTemp: createTemp, NameToPath: func(n string) string { return filepath.Join(dest, filepath.Base(n)) },
-			Client: &http.Client{Transport: &memRT{data: data, behave: c.HTTP}}, Timeout: time.Minute}}
+			Client: &http.Client{Transport: &memRT{data: data, behave: c.HTTP}}, Timeout: time.Minute}
+		if c.CopyRename {
+			wg.Rename = copyRename
+		}
+		cfg.DeviceModules = map[string]serviceinfo.DeviceModule{modName: wg}
 	}
 	w.Owner.Mem.OwnerModules = func(context.Context, protocol.GUID, serviceinfo.Devmod, []string) []lab.NamedModule {
 		return []lab.NamedModule{{Name: modName, Mod: owner}}
@@ -790,6 +812,15 @@ func cases(thorough bool) []tcase {
 			}
 		}
 	}
+	// the device module's Rename option set to a copying move
+	for _, sz := range []int{1, 100, 1014, 5000, 32767, 32768, 32769, 70000} {
+		for _, ch := range []int{0, 7, 1268} {
+			if ch == 7 && sz > 300 {
+				continue
+			}
+			out = append(out, tcase{Kind: "download", Size: sz, Chunk: ch, Content: sz % 3, Must: sz%2 == 0, Fault: none, CopyRename: true})
+		}
+	}
 	// wget: sizes and server behaviours
 	for _, sz := range []int{1, 2, 100, 1014, 4096, 70000} {
 		for _, b := range []string{"ok", "404", "500", "refuse", "reset-mid", "reset-end", "flip", "shorter", "longer", "other", "refuse-once", "500-once", "reset-mid-once", "reset-end-once", "shorter-once", "flip-once"} {
@@ -799,6 +830,7 @@ func cases(thorough bool) []tcase {
 			out = append(out, tcase{Kind: "wget", Size: sz, Content: sz % 3, HTTP: b, Fault: none})
 		}
 		out = append(out, tcase{Kind: "wget", Size: sz, Content: sz % 3, HTTP: "ok", NoSum: true, Fault: none})
+		out = append(out, tcase{Kind: "wget", Size: sz, Content: sz % 3, HTTP: "ok", Fault: none, CopyRename: true})
 	}
 	return out
 }
@@ -880,7 +912,7 @@ func runAll(cs []tcase, mode string, collect func(tcase, outcome)) {
 
 func main() {
 	r = ev.Start("C17", "model_checking")
-	r.Rule("Each case is a complete TO2 run (real client, HTTP transport, handler, owner responders, real fsim modules on both sides, files on a scratch file system). Honest grid: download with ChunkSize in {0,-1,1,2,7,100,1013,1014,1015,1268,5000,65535} x sizes {k*chunk+d : k in 1..3, d in -2..2} and around the MTU x MTU pairs from 1300 to 65535 x three content generators x MustDownload; upload with sizes {k*base+d : base in 1014, MTU, MTU-5; k in 1..3; d in -3..3} and small sizes; wget against an in-process HTTP server with ten behaviours x six sizes. Fault grid: for a set of base transfers of each kind, EVERY service-info KV of kind data, sha-384 or length that crosses the tunnel x every operator (data: 10 operators, sha-384: 7, length: 7; removing the optional digest altogether is not a mismatch and not an operator) that changes the value. Oracle: honest -> TO2 succeeds, the destination holds exactly one file with the announced name and bytes, the receiver reported success; fault -> no file at the destination and no success report. A run in which neither side sends service info for 40 consecutive rounds is cut off and judged by the same oracle.")
+	r.Rule("Each case is a complete TO2 run (real client, HTTP transport, handler, owner responders, real fsim modules on both sides, files on a scratch file system). Honest grid: download with ChunkSize in {0,-1,1,2,7,100,1013,1014,1015,1268,5000,65535} x sizes {k*chunk+d : k in 1..3, d in -2..2} and around the MTU x MTU pairs from 1300 to 65535 x three content generators x MustDownload; upload with sizes {k*base+d : base in 1014, MTU, MTU-5; k in 1..3; d in -3..3} and small sizes; wget against an in-process HTTP server with ten behaviours (and six of them hitting only the first request) x six sizes; senders whose source answers Read short; device modules whose Rename option is a copying move. Fault grid: for a set of base transfers of each kind, EVERY service-info KV of kind data, sha-384 or length that crosses the tunnel x every operator (data: 10 operators, sha-384: 7, length: 7; removing the optional digest altogether is not a mismatch and not an operator) that changes the value. Oracle: honest -> TO2 succeeds, the destination holds exactly one file with the announced name and bytes, the receiver reported success; fault -> no file at the destination and no success report. A run in which neither side sends service info for 40 consecutive rounds is cut off and judged by the same oracle.")
 	if r.Replay != "" {
 		replay(r.Replay)
 		return
